@@ -97,6 +97,9 @@ static void run_case(CaseCtx& c)
     if (ps.geom == G_CIRCULAR)
         art_nonzero = false;
 
+    // input class of a definiteness witness: the across-origin closure drops the mixed couplings through the origin
+    // ("artificial 7-point stencil"), which is the only place where the node-wise ellipticity bound of the scheme is lost
+    const std::string pd_class = std::string(dirbc ? "/dirbc" : "/across-origin") + (art_nonzero ? "/mixed-terms" : "/no-mixed-terms");
     auto interior_vector = [&](int kind) {
         Vector<double> v(n);
         assign(v, 0.0);
@@ -157,7 +160,7 @@ static void run_case(CaseCtx& c)
             if (scale_xx > 0) {
                 double rq = (double)(q / scale_xx);
                 min_rayleigh = std::min(min_rayleigh, rq);
-                c.obs.require("positive_quadratic_form", q > 0, op.name + "/random-vector");
+                c.obs.require("positive_quadratic_form", q > 0, op.name + "/random-vector" + pd_class);
             }
         }
     }
@@ -182,12 +185,27 @@ static void run_case(CaseCtx& c)
             ld sxx = 0;
             for (int k : interior)
                 sxx += fabsl((ld)x[k]) * aAx[k];
+            if (getenv("VERIF_C05_DIAG") && it == 3) {
+                std::vector<ld> Ax;
+                ref.apply(x, Ax);
+                std::vector<ld> rowq(nr, 0.0L), rown(nr, 0.0L);
+                for (int i = 0; i < nr; i++)
+                    for (int j = 0; j < nt; j++) {
+                        int k = grid.index(i, j);
+                        rowq[i] += Ax[k] * (ld)x[k];
+                        rown[i] += (ld)x[k] * (ld)x[k];
+                    }
+                for (int i = 0; i < nr; i++)
+                    fprintf(stderr, "DIAGROW i=%d r=%g q_i=%Lg |x_i|^2=%Lg\n", i, grid.radius(i), rowq[i], rown[i]);
+            }
             for (auto& op : ops) {
                 std::vector<ld> Ax;
                 op.apply(x, Ax);
                 ld q = dot_int(Ax, x);
                 min_rayleigh = std::min(min_rayleigh, (double)(q / sxx));
-                c.obs.require("positive_quadratic_form", q > 0, op.name + "/inverse-iteration");
+                if (getenv("VERIF_C05_DIAG"))
+                    fprintf(stderr, "DIAG it=%d op=%s q=%Lg sxx=%Lg q/sxx=%Lg\n", it, op.name.c_str(), q, sxx, q / sxx);
+                c.obs.require("positive_quadratic_form", q > 0, op.name + "/inverse-iteration" + pd_class);
             }
         }
     }
@@ -223,7 +241,7 @@ static void run_case(CaseCtx& c)
                 for (int b = 0; b < m; b++)
                     S[(size_t)a * m + b] = 0.5L * (M[(size_t)a * m + b] + M[(size_t)b * m + a]);
             ld minpiv = cholesky_min_pivot(S, m);
-            c.obs.require("cholesky_positive_definite", minpiv > 0, op.name + "/full-interior");
+            c.obs.require("cholesky_positive_definite", minpiv > 0, op.name + "/full-interior" + pd_class);
             c.obs.info.num("min_cholesky_pivot_rel_" + op.name, (double)minpiv);
             // line blocks: every circle in the circle section, every radial line in the radial section
             int ncirc = grid.numberSmootherCircles();
